@@ -110,6 +110,8 @@ def check_rejection_result(out, res, batches, wl, n_samples, objective, spec, ca
         budget = objective['n_sim']
     elif 'quantile' in objective:
         budget = ceil(n_samples / objective['quantile'])
+    elif 'threshold' not in objective:
+        budget = ceil(n_samples / 0.01)     # no objective given: documented default quantile
     if budget is not None and len(batches) != ceil(budget / bs):
         out.violate('budget-batches', '', call=call, consumed=len(batches),
                     expected=ceil(budget / bs))
@@ -125,9 +127,9 @@ def run(tape, kind):
     spec = sp.gen_inference_spec(tape, disc_kinds=('disc', 'disc', 'dist'), extra_shapes=True,
                                  ties=True)
     pil = sr.pilot(elfi, spec)
-    wl = sr.gen_rejection_workload(tape, spec, pil)
+    wl = sr.gen_rejection_workload(tape, spec, pil, allow_default=True)
     if tape.chance('second_call', 1, 4):
-        w2 = sr.gen_rejection_workload(tape, spec, pil)
+        w2 = sr.gen_rejection_workload(tape, spec, pil, allow_default=True)
         wl['second'] = (w2['n_samples'], w2['objective'])
     sched = sr.gen_schedule(tape)
     out.sample = {'spec': sp.describe_spec(spec), 'workload': wl, 'schedule': sched}
@@ -159,7 +161,7 @@ def run(tape, kind):
         run_.drain()
     sr.check_in_order(out, run_, continuing=False)
     shapes = tuple(sorted((k, np.asarray(v).shape[1:]) for k, v in res.outputs.items()))
-    okind = list(wl['objective'])[0]
+    okind = (list(wl['objective']) or ['default'])[0]
     out.abstract = (okind, wl['batch_size'], wl['n_samples'], len(run_.consumed), info['ties'],
                     info['inf'], sched['facade'], shapes)
     out.nontrivial = info['consumed'] > wl['n_samples'] and (
